@@ -213,6 +213,11 @@ func opStrIncr(k string, d int) step {
 		return rInt(e.r.Str().Incr(k, d))
 	}}
 }
+func opStrIncrFloat(k string, d float64) step {
+	return step{text: fmt.Sprintf("str.IncrFloat %s %s", hxs(k), dy(d)), family: "str", run: func(e *env, _ func(int64) int64) string {
+		return rScore(e.r.Str().IncrFloat(k, d))
+	}}
+}
 func opStrSet(k, v string, asString bool) step {
 	return step{text: "str.Set " + hxs(k) + " " + hxs(v), family: "str", run: func(e *env, _ func(int64) int64) string {
 		var val any = []byte(v)
@@ -627,6 +632,11 @@ func opHashGetMany(k string, fs []string) step {
 func opHashIncr(k, f string, d int) step {
 	return step{text: fmt.Sprintf("hash.Incr %s %s %d", hxs(k), hxs(f), d), family: "hash", run: func(e *env, _ func(int64) int64) string {
 		return rInt(e.r.Hash().Incr(k, f, d))
+	}}
+}
+func opHashIncrFloat(k, f string, d float64) step {
+	return step{text: fmt.Sprintf("hash.IncrFloat %s %s %s", hxs(k), hxs(f), dy(d)), family: "hash", run: func(e *env, _ func(int64) int64) string {
+		return rScore(e.r.Hash().IncrFloat(k, f, d))
 	}}
 }
 func opHashItems(k string) step {
